@@ -636,7 +636,8 @@ theorem escape_outside_hypotheses :
     escapeAssertion "p.x == p2.y".toList = "p_x == p2.y".toList := by
   decide
 
-/-! ## `eval()`: detection, argument extraction and splicing -/
+/-! ## `eval()`: detection, argument extraction and splicing — for every placement of white space between
+     `eval` and `(` and around the argument (F01c repaired) -/
 
 theorem mismatch_drop (lit s y : Str) (h : mismatch lit s = true) : dropPrefix? lit (s ++ y) = none := by
   induction lit generalizing s with
@@ -652,20 +653,128 @@ theorem mismatch_drop (lit s y : Str) (h : mismatch lit s = true) : dropPrefix? 
         simp [dropPrefix?, ih t h]
       · simp [dropPrefix?, hpc]
 
-theorem evalAt_mismatch (s y : Str) (h : mismatch evalLit s = true) : evalAt (s ++ y) = none := by
-  simp [evalAt, mismatch_drop _ _ _ h]
-
 theorem dropPrefix_self (lit z : Str) : dropPrefix? lit (lit ++ z) = some z := by
   induction lit with
   | nil => cases z <;> rfl
   | cons p ps ih => simp [dropPrefix?, ih]
 
-theorem evalAt_call (name z : Str) (h : name.contains ')' = false) :
-    evalAt (evalLit ++ (name ++ ')' :: z)) = some name := by
-  have hn : ')' ∉ name := by simpa using h
-  simp only [evalAt, dropPrefix_self]
-  have : (name ++ ')' :: z).contains ')' = true := by simp
-  rw [if_pos this, takeWhile_ne_append _ _ _ hn]
+theorem dropPrefix_append (lit s t y : Str) (h : dropPrefix? lit s = some t) :
+    dropPrefix? lit (s ++ y) = some (t ++ y) := by
+  induction lit generalizing s with
+  | nil =>
+    cases s <;> simp [dropPrefix?] at h <;> subst h
+    · cases y <;> rfl
+    · rfl
+  | cons p ps ih =>
+    cases s with
+    | nil => simp [dropPrefix?] at h
+    | cons c s' =>
+      by_cases hpc : p = c
+      · subst hpc
+        simp only [dropPrefix?, beq_self_eq_true, ↓reduceIte] at h
+        simp [dropPrefix?, ih s' h]
+      · simp [dropPrefix?, hpc] at h
+
+theorem dropWhile_all (p : Char → Bool) (x : Str) (c : Char) (z : Str) (hx : x.all p = true) (hc : p c = false) :
+    (x ++ c :: z).dropWhile p = c :: z ∧ (x ++ c :: z).takeWhile p = x := by
+  induction x with
+  | nil => simp [hc]
+  | cons d x ih =>
+    simp only [List.all_cons, Bool.and_eq_true] at hx
+    simp [hx.1, ih hx.2]
+
+theorem dropWhile_all_nil (p : Char → Bool) (x : Str) (hx : x.all p = true) : x.dropWhile p = [] := by
+  induction x with
+  | nil => rfl
+  | cons d x ih =>
+    simp only [List.all_cons, Bool.and_eq_true] at hx
+    simp [hx.1, ih hx.2]
+
+theorem dropWhile_stops (p : Char → Bool) (t y : Str) (c : Char) (r : Str) (h : t.dropWhile p = c :: r) :
+    (t ++ y).dropWhile p = c :: (r ++ y) := by
+  induction t with
+  | nil => simp at h
+  | cons d t ih =>
+    by_cases hd : p d = true
+    · simp only [List.dropWhile_cons, hd, ↓reduceIte] at h
+      simp [hd, ih h]
+    · have hd' : p d = false := by simpa using hd
+      simp only [List.dropWhile_cons, hd', Bool.false_eq_true, ↓reduceIte, List.cons.injEq] at h
+      obtain ⟨rfl, rfl⟩ := h
+      simp [hd']
+
+theorem evalAt_noStart (s y : Str) (h : noStart s = true) : evalAt (s ++ y) = none := by
+  simp only [noStart, Bool.or_eq_true] at h
+  rcases h with h | h
+  · simp [evalAt, mismatch_drop _ _ _ h]
+  · cases hd : dropPrefix? evalWord s with
+    | none => simp [hd] at h
+    | some t =>
+      simp only [hd] at h
+      cases hw : t.dropWhile isSpace with
+      | nil => simp [hw] at h
+      | cons c r =>
+        simp only [hw, bne_iff_ne, ne_eq] at h
+        simp only [evalAt, dropPrefix_append _ _ _ y hd, dropWhile_stops _ t y c r hw]
+        split
+        · rename_i heq; cases heq; exact absurd rfl h
+        · rfl
+
+/-- `str.strip` removes exactly the white space around a text that has none at its ends -/
+theorem strip_pad (a x b : Str) (ha : a.all isSpace = true) (hb : b.all isSpace = true)
+    (hx : trimmed x = true) : strip (a ++ (x ++ b)) = x := by
+  simp only [trimmed, Bool.and_eq_true] at hx
+  obtain ⟨h1, h2⟩ := hx
+  cases x with
+  | nil =>
+    have : (a ++ b).all isSpace = true := by simp [ha, hb]
+    simp [strip, lstrip, rstrip, dropWhile_all_nil _ _ this]
+  | cons c x' =>
+    have hc : isSpace c = false := by simpa using h1
+    have e1 : lstrip (a ++ (c :: x' ++ b)) = c :: x' ++ b := by
+      simpa [lstrip] using (dropWhile_all isSpace a c (x' ++ b) ha hc).1
+    cases hr : (c :: x').reverse with
+    | nil => simp at hr
+    | cons l r =>
+      simp only [hr] at h2
+      have hl : isSpace l = false := by simpa using h2
+      have hbr : b.reverse.all isSpace = true := by simpa using hb
+      have e2 : (c :: x' ++ b).reverse.dropWhile isSpace = l :: r := by
+        rw [List.reverse_append, hr]
+        exact (dropWhile_all isSpace b.reverse l r hbr hl).1
+      rw [strip, e1, rstrip, e2, ← hr, List.reverse_reverse]
+
+theorem space_no_paren {w : Str} (h : w.all isSpace = true) : ')' ∉ w := by
+  intro hm
+  have := List.all_eq_true.mp h _ hm
+  simp [isSpace] at this
+
+/-- the text of one call and what the scanner sees at its first character -/
+def callText (c : EvalCall) (z : Str) : Str :=
+  evalWord ++ (c.ws1 ++ '(' :: (c.ws2 ++ (c.name ++ (c.ws3 ++ ')' :: z))))
+
+def callBody (c : EvalCall) : Str := 'v' :: 'a' :: 'l' :: (c.ws1 ++ '(' :: (c.ws2 ++ (c.name ++ c.ws3)))
+
+theorem call_text (c : EvalCall) (z : Str) : callText c z = 'e' :: (callBody c ++ ')' :: z) := by
+  simp [callText, callBody, evalWord]
+
+def okCall (c : EvalCall) : Bool :=
+  c.ws1.all isSpace && c.ws2.all isSpace && c.ws3.all isSpace && !c.name.contains ')' && trimmed c.name
+
+theorem evalAt_call (c : EvalCall) (z : Str) (h : okCall c = true) :
+    evalAt (callText c z) = some (c.name, (callBody c).length + 1) := by
+  simp only [okCall, Bool.and_eq_true, Bool.not_eq_eq_eq_not, Bool.not_true] at h
+  obtain ⟨⟨⟨⟨h1, h2⟩, h3⟩, hn⟩, ht⟩ := h
+  have hn' : ')' ∉ c.name := by simpa using hn
+  have hcontent : ')' ∉ c.ws2 ++ (c.name ++ c.ws3) := by
+    simp [space_no_paren h2, space_no_paren h3, hn']
+  have ⟨d1, d2⟩ := dropWhile_all isSpace c.ws1 '(' (c.ws2 ++ (c.name ++ (c.ws3 ++ ')' :: z))) h1 (by decide)
+  have eu : c.ws2 ++ (c.name ++ (c.ws3 ++ ')' :: z)) = (c.ws2 ++ (c.name ++ c.ws3)) ++ ')' :: z := by simp
+  simp only [callText, evalAt, dropPrefix_self, d1, d2]
+  have hc : (c.ws2 ++ (c.name ++ (c.ws3 ++ ')' :: z))).contains ')' = true := by simp
+  rw [if_pos hc, eu, takeWhile_ne_append _ _ _ hcontent, strip_pad _ _ _ h2 h3 ht]
+  simp [callBody]
+  omega
 
 theorem quietE_find (x y : Str) (pw : Bool) (h : quietE pw x = true) :
     findEvals 0 pw (x ++ y) = findEvals 0 (lastWord pw x) y := by
@@ -677,7 +786,7 @@ theorem quietE_find (x y : Str) (pw : Bool) (h : quietE pw x = true) :
     have cond : (if pw = true then none else evalAt (c :: (t ++ y))) = none := by
       rcases h1 with h1 | h1
       · simp [h1]
-      · have := evalAt_mismatch (c :: t) y h1
+      · have := evalAt_noStart (c :: t) y h1
         simp only [List.cons_append] at this
         simp [this]
     simp only [List.cons_append, findEvals, cond, lastWord_cons]
@@ -693,7 +802,7 @@ theorem quietE_replace (x y : Str) (pw : Bool) (rules : List Str) (h : quietE pw
     have cond : (if pw = true then none else evalAt (c :: (t ++ y))) = none := by
       rcases h1 with h1 | h1
       · simp [h1]
-      · have := evalAt_mismatch (c :: t) y h1
+      · have := evalAt_noStart (c :: t) y h1
         simp only [List.cons_append] at this
         simp [this]
     simp only [List.cons_append, replaceEvalAux, cond, lastWord_cons]
@@ -740,44 +849,49 @@ theorem quietEnd_replace (x : Str) (pw : Bool) (rules : List Str) (h : quietEnd 
     rw [ih _ h2]
     rfl
 
-/-- the text of one call, seen from its first character -/
-theorem call_text (name z : Str) :
-    evalLit ++ (name ++ ')' :: z) = 'e' :: (('v' :: 'a' :: 'l' :: '(' :: name) ++ ')' :: z) := by
-  simp [evalLit]
-
-theorem find_call (name z : Str) (h : name.contains ')' = false) :
-    findEvals 0 false (evalLit ++ (name ++ ')' :: z)) = name :: findEvals 0 false z := by
-  have e := evalAt_call name z h
+theorem find_call (c : EvalCall) (z : Str) (h : okCall c = true) :
+    findEvals 0 false (callText c z) = c.name :: findEvals 0 false z := by
+  have e := evalAt_call c z h
   rw [call_text] at e ⊢
   simp only [findEvals, Bool.false_eq_true, ↓reduceIte, e]
-  have : name.length + 5 = ('v' :: 'a' :: 'l' :: '(' :: name).length + 1 := by simp
-  rw [this, find_skip]
+  rw [find_skip]
 
-theorem replace_call (name z r : Str) (rs : List Str) (h : name.contains ')' = false) :
-    replaceEvalAux 0 false (evalLit ++ (name ++ ')' :: z)) (r :: rs) =
+theorem replace_call (c : EvalCall) (z r : Str) (rs : List Str) (h : okCall c = true) :
+    replaceEvalAux 0 false (callText c z) (r :: rs) =
       (replaceEvalAux 0 false z rs).map fun out => '(' :: (r ++ ')' :: out) := by
-  have e := evalAt_call name z h
+  have e := evalAt_call c z h
   rw [call_text] at e ⊢
   simp only [replaceEvalAux, Bool.false_eq_true, ↓reduceIte, e]
-  have : name.length + 5 = ('v' :: 'a' :: 'l' :: '(' :: name).length + 1 := by simp
-  rw [this, replace_skip]
+  rw [replace_skip]
 
-/-- `get_eval_value` returns exactly the names of the calls, in order; `has_eval` holds iff there is a call -/
-theorem getEvalValue_layout (segs : List (Str × Str)) (tail : Str) (pw : Bool)
+theorem renderEvals_cons (c : EvalCall) (rest : List EvalCall) (tail : Str) :
+    renderEvals (c :: rest) tail = c.pre ++ callText c (renderEvals rest tail) := rfl
+
+theorem okEvals_cons {pw : Bool} {c : EvalCall} {rest : List EvalCall} {tail : Str}
+    (h : okEvals pw (c :: rest) tail = true) :
+    quietE pw c.pre = true ∧ lastWord pw c.pre = false ∧ okCall c = true ∧ okEvals false rest tail = true := by
+  simp only [okEvals, Bool.and_eq_true, Bool.not_eq_eq_eq_not, Bool.not_true] at h
+  obtain ⟨⟨⟨⟨⟨⟨⟨a, b⟩, c1⟩, c2⟩, c3⟩, c4⟩, c5⟩, d⟩ := h
+  refine ⟨a, b, ?_, d⟩
+  have c4' : ')' ∉ c.name := by simpa using c4
+  simp [okCall, c1, c2, c3, c4', c5]
+
+/-- **getEvalValue_layout** — `get_eval_value` returns exactly the names of the calls, in order, for every
+    placement of white space inside the calls (`has_eval` holds iff there is a call) -/
+theorem getEvalValue_layout (segs : List EvalCall) (tail : Str) (pw : Bool)
     (h : okEvals pw segs tail = true) :
-    findEvals 0 pw (renderEvals segs tail) = segs.map (·.2) := by
+    findEvals 0 pw (renderEvals segs tail) = segs.map (·.name) := by
   induction segs generalizing pw with
   | nil => simpa [renderEvals] using quietEnd_find tail pw (by simpa [okEvals] using h)
-  | cons sg rest ih =>
-    obtain ⟨pre, name⟩ := sg
-    simp only [okEvals, Bool.and_eq_true, Bool.not_eq_eq_eq_not, Bool.not_true] at h
-    obtain ⟨⟨⟨hq, hl⟩, hn⟩, hr⟩ := h
-    simp only [renderEvals, List.map_cons]
-    rw [quietE_find pre _ pw hq, hl, find_call name _ hn, ih false hr]
+  | cons c rest ih =>
+    obtain ⟨hq, hl, hc, hr⟩ := okEvals_cons h
+    rw [renderEvals_cons, quietE_find c.pre _ pw hq, hl, find_call c _ hc, ih false hr]
+    rfl
 
-/-- **replaceEval_layout** — `k` occurrences of `eval(name)` are replaced by the `k` parenthesised rule texts,
-    in order; the text between them is untouched (for every text in which nothing else looks like a call) -/
-theorem replaceEval_layout (segs : List (Str × Str)) (tail : Str) (rules : List Str) (pw : Bool)
+/-- **replaceEval_layout** — `k` occurrences of `eval( name )` are replaced by the `k` parenthesised rule texts,
+    in order; the text between them is untouched (for every text in which nothing else looks like a call, and
+    every placement of white space inside the calls) -/
+theorem replaceEval_layout (segs : List EvalCall) (tail : Str) (rules : List Str) (pw : Bool)
     (h : okEvals pw segs tail = true) (hl : rules.length = segs.length) :
     replaceEvalAux 0 pw (renderEvals segs tail) rules = some (spliced segs rules tail) := by
   induction segs generalizing pw rules with
@@ -785,37 +899,85 @@ theorem replaceEval_layout (segs : List (Str × Str)) (tail : Str) (rules : List
     cases rules with
     | nil => simpa [renderEvals, spliced] using quietEnd_replace tail pw [] (by simpa [okEvals] using h)
     | cons r rs => simp at hl
-  | cons sg rest ih =>
-    obtain ⟨pre, name⟩ := sg
+  | cons c rest ih =>
     cases rules with
     | nil => simp at hl
     | cons r rs =>
-      simp only [okEvals, Bool.and_eq_true, Bool.not_eq_eq_eq_not, Bool.not_true] at h
-      obtain ⟨⟨⟨hq, hlw⟩, hn⟩, hr⟩ := h
-      simp only [renderEvals, spliced]
-      rw [quietE_replace pre _ pw _ hq, hlw, replace_call name _ r rs hn, ih rs false hr (by simpa using hl)]
-      simp
+      obtain ⟨hq, hlw, hc, hr⟩ := okEvals_cons h
+      rw [renderEvals_cons, quietE_replace c.pre _ pw _ hq, hlw, replace_call c _ r rs hc,
+        ih rs false hr (by simpa using hl)]
+      simp [spliced]
 
 /-- too few rule texts: `rules.pop(0)` raises (`IndexError`) -/
-theorem replaceEval_short (pre name : Str) (rest : List (Str × Str)) (tail : Str) (pw : Bool)
-    (h : okEvals pw ((pre, name) :: rest) tail = true) :
-    replaceEvalAux 0 pw (renderEvals ((pre, name) :: rest) tail) [] = none := by
-  simp only [okEvals, Bool.and_eq_true, Bool.not_eq_eq_eq_not, Bool.not_true] at h
-  obtain ⟨⟨⟨hq, hlw⟩, hn⟩, _⟩ := h
-  have e := evalAt_call name (renderEvals rest tail) hn
-  simp only [renderEvals]
-  rw [quietE_replace pre _ pw _ hq, hlw]
+theorem replaceEval_short (c : EvalCall) (rest : List EvalCall) (tail : Str) (pw : Bool)
+    (h : okEvals pw (c :: rest) tail = true) :
+    replaceEvalAux 0 pw (renderEvals (c :: rest) tail) [] = none := by
+  obtain ⟨hq, hlw, hc, _⟩ := okEvals_cons h
+  have e := evalAt_call c (renderEvals rest tail) hc
+  rw [renderEvals_cons, quietE_replace c.pre _ pw _ hq, hlw]
   rw [call_text] at e ⊢
   simp only [replaceEvalAux, Bool.false_eq_true, ↓reduceIte, e]
   rfl
 
-/-- non-vacuity: `eval(p_sub_rule) && r_obj == p_obj || eval(p_rule2)` -/
-def exampleEvals : List (Str × Str) := [([], "p_sub_rule".toList), (" && r_obj == p_obj || ".toList, "p_rule2".toList)]
+theorem okEvals_tight {pw : Bool} {segs : List EvalCall} {tail : Str} (h : okEvals pw segs tail = true) :
+    okEvals pw (segs.map EvalCall.tight) tail = true := by
+  induction segs generalizing pw with
+  | nil => simpa [okEvals] using h
+  | cons c rest ih =>
+    simp only [okEvals, Bool.and_eq_true, Bool.not_eq_eq_eq_not, Bool.not_true] at h
+    obtain ⟨⟨⟨⟨⟨⟨⟨a, b⟩, _⟩, _⟩, _⟩, c4⟩, c5⟩, d⟩ := h
+    have c4' : ')' ∉ c.name := by simpa using c4
+    simp [okEvals, EvalCall.tight, a, b, c4', c5, ih d]
+
+theorem spliced_tight (segs : List EvalCall) (rules : List Str) (tail : Str) :
+    spliced (segs.map EvalCall.tight) rules tail = spliced segs rules tail := by
+  induction segs generalizing rules with
+  | nil => cases rules <;> rfl
+  | cons c rest ih =>
+    cases rules with
+    | nil => rfl
+    | cons r rs => simp [spliced, EvalCall.tight, ih]
+
+/-- **eval_spacing_irrelevant** (F01c) — the names found and the spliced text are the same as for the matcher
+    in which every call is written `eval(name)` without white space -/
+theorem eval_spacing_irrelevant (segs : List EvalCall) (tail : Str) (rules : List Str)
+    (h : okEvals false segs tail = true) (hl : rules.length = segs.length) :
+    getEvalValue (renderEvals segs tail) = getEvalValue (renderEvals (segs.map EvalCall.tight) tail) ∧
+    replaceEval (renderEvals segs tail) rules = replaceEval (renderEvals (segs.map EvalCall.tight) tail) rules := by
+  have ht := okEvals_tight h
+  constructor
+  · unfold getEvalValue
+    rw [getEvalValue_layout _ _ _ h, getEvalValue_layout _ _ _ ht]
+    simp [EvalCall.tight, Function.comp_def]
+  · unfold replaceEval
+    rw [replaceEval_layout _ _ _ _ h hl, replaceEval_layout _ _ _ _ ht (by simpa using hl), spliced_tight]
+
+/-- non-vacuity: `eval ( p_sub_rule ) && r_obj == p_obj || eval(p_rule2 )` -/
+def exampleEvals : List EvalCall :=
+  [{ pre := [], ws1 := [' '], ws2 := [' '], name := "p_sub_rule".toList, ws3 := [' '] },
+   { pre := " && r_obj == p_obj || ".toList, ws1 := [], ws2 := [], name := "p_rule2".toList, ws3 := ['\t'] }]
 
 example : okEvals false exampleEvals [] = true := by decide
+example : String.ofList (renderEvals exampleEvals []) = "eval ( p_sub_rule ) && r_obj == p_obj || eval(p_rule2\t)" := by
+  decide
 example : (replaceEval (renderEvals exampleEvals []) ["r_sub.age > 18".toList, "True".toList]).map String.ofList =
     some "(r_sub.age > 18) && r_obj == p_obj || (True)" := by decide
+example : (getEvalValue (renderEvals exampleEvals [])).map String.ofList = ["p_sub_rule", "p_rule2"] := by decide
 example : getEvalValue "evaluate(x) && my_eval(y) && eval(p_r)".toList = ["p_r".toList] := by decide
+
+/-- **F01c, negative witness**: the unrepaired regular expression `\beval\(([^)]*)\)` keeps the blanks in the
+    group (so the lookup of the rule field fails) and does not see `eval (…)` at all -/
+def evalAtUnrepaired (s : Str) : Option Str :=
+  match dropPrefix? (evalWord ++ ['(']) s with
+  | none => none
+  | some t => if t.contains ')' then some (t.takeWhile (· != ')')) else none
+
+theorem unrepaired_eval_keeps_blanks :
+    evalAtUnrepaired "eval( p_r )".toList = some " p_r ".toList ∧
+    evalAtUnrepaired "eval (p_r)".toList = none ∧
+    (evalAt "eval( p_r )".toList).map (·.1) = some "p_r".toList ∧
+    (evalAt "eval (p_r)".toList).map (·.1) = some "p_r".toList := by
+  decide
 
 /-! ## `Config._parse_buffer`: blank and comment lines, continuation lines -/
 
